@@ -19,6 +19,18 @@ pub fn gen(seed: u64, tier: Tier) -> ScenarioSpec {
         // the payload table may declare events that never occur (a recorder built with support it does not use)
         rec.extras.phantom = super::c17::gen_phantom(&mut rng, (rec.version[0], rec.version[1]));
     }
+    // declared events the library does not know are part of a well-formed stream too; some are larger than any
+    // buffer a reader might use for "one event"
+    if rng.chance(1, 10) {
+        rec.extras.unknown = super::c17::gen_unknown(&mut rng, super::c17::events_hint(&rec), 2);
+        if rng.chance(1, 3) {
+            let code = 0x60 + rng.below(0x30) as u8;
+            if !rec.extras.unknown.iter().any(|u| u.code == code) {
+                let at = rng.below(super::c17::events_hint(&rec) as u64 + 1) as u32;
+                rec.extras.unknown.push(UnknownEv { code, size: *rng.pick(&[4097u16, 6000, 8193, 20_000, 65_535]), after: vec![at], pseed: rng.next_u64(), split: false });
+            }
+        }
+    }
     let len = gen::approx_len(&rec);
     let mut spec = gen::base_spec(P, "S2", seed, rec);
     spec.api = Api::Incremental;
